@@ -3,16 +3,16 @@
 # scratch worktree /work/eval/repo) against one seeded change.  usage: seeded_eval.sh <ID.X> <check>...
 set -u
 NAME=$1; shift
-P=/tmp/mut/$NAME.patch
+P=/work/seeded/$NAME.patch
 R=/work/eval/repo
 V=/work/eval/verif
 cd $R && git checkout -q -- . && git apply $P || { echo "$NAME apply-failed"; exit 1; }
 cd $V
 out=""
 for c in "$@"; do
-  VERIF_REPO=$R ./check $c > /tmp/mut/$NAME.check.$c.log 2>&1
+  VERIF_REPO=$R ./check $c > /work/seeded/$NAME.check.$c.log 2>&1
   rc=$?
-  v=$(grep "^VIOLATION" /tmp/mut/$NAME.check.$c.log | head -1 | sed 's/VIOLATION property=[A-Z0-9]* //')
+  v=$(grep "^VIOLATION" /work/seeded/$NAME.check.$c.log | head -1 | sed 's/VIOLATION property=[A-Z0-9]* //')
   out="$out $c:rc=$rc[$v]"
 done
 cd $R && git checkout -q -- .
